@@ -29,7 +29,11 @@ Inductive stmt :=
 | SMakeSlice (x : nat)                         (* x := make([]T, 0[, pure capacity hint]) *)
 | SAppend (x : nat) (e : exp)                  (* x = append(x, e) *)
 | SRangeMap (kx vx : option nat) (body : stmt) (* for kx, vx := range m; the generator rejects bodies that write the map *)
-| SReturnSlice (x : nat).                      (* return x   (encoded as length :: elements) *)
+| SReturnSlice (x : nat)                       (* return x   (encoded as length :: elements) *)
+(* callbacks: the method's function-typed parameter (fn, yield) *)
+| SCall (es : list exp) (xres : option nat)    (* [xres :=] fn(es...): the arguments are logged, the callback's answer is a bool *)
+| SCallMap                                     (* fn(m): the callback is handed the guarded map itself and may change it *)
+| SBreak.                                      (* break out of the innermost loop *)
 
 (* n_args: number of non-variadic parameters; variadic: has a `keys ...K` parameter *)
 Record method := { n_args : nat; variadic : bool; m_body : stmt }.
